@@ -34,6 +34,8 @@ type Obligation struct {
 type Exec struct {
 	eng           *Engine
 	topFn         *ssa.Function
+	inClosureCall bool    // a function literal is being called through its contract: it may write the variables it captures
+	pointArgs     []Value // arguments of the call a before-call assertion is attached to (arg0, arg1, ...)
 	topC          *FuncContract
 	assumes       []*Term
 	assumeSeen    map[int]bool
@@ -933,6 +935,32 @@ func (ex *Exec) havoc(st *State, ws *WriteSet, why string, fr *Frame) {
 		if !ws.otherAll {
 			// every reason for the havoc is a channel operation of this goroutine: storage only it touches survives
 			st.heap.base.except = append(st.heap.base.except, ex.goOwnsKeys()...)
+		}
+		// the cell of a captured local variable is reachable only through the function literals that capture it
+		// (language fact): unless such a literal is what is being called, or one of them escaped (stored, passed on,
+		// started as a goroutine), no callee can change it
+		if !ex.inClosureCall {
+			for f := fr; f != nil; f = f.parent {
+				for _, a := range f.allocSeq {
+					if !a.Heap || !privateCell(a) {
+						continue
+					}
+					rv, ok := f.regs[a]
+					if !ok || len(rv.C) != 1 {
+						continue
+					}
+					for _, k := range refKeys(derefType(a.Type())) {
+						if ws.keys[k] {
+							continue
+						}
+						srt, ok := keySortReg[k]
+						if !ok || srt.Kind != SArray {
+							continue
+						}
+						st.heap.m[k] = Store(st.heap.Get(k, srt), rv.C[0], Select(old.Get(k, srt), rv.C[0]))
+					}
+				}
+			}
 		}
 		st.heap.base.exceptParent = old
 		for _, k := range sortedKeyList(ws.keys) {
@@ -1850,4 +1878,67 @@ func sortedAllocs(m map[*ssa.Alloc]bool) []*ssa.Alloc {
 		return out[i].Name() < out[j].Name()
 	})
 	return out
+}
+
+var privateCellMemo = map[*ssa.Alloc]bool{}
+
+// privateCell: a heap-allocated local whose address is used only by loads, stores and function literals that are
+// called directly or deferred (never stored, passed as an argument, returned or started with go).
+func privateCell(a *ssa.Alloc) bool {
+	if v, ok := privateCellMemo[a]; ok {
+		return v
+	}
+	res := true
+	if _, isArr := derefType(a.Type()).Underlying().(*types.Array); isArr {
+		res = false
+	}
+	if a.Referrers() == nil {
+		res = false
+	}
+	if res {
+	outer:
+		for _, r := range *a.Referrers() {
+			switch i := r.(type) {
+			case *ssa.Store:
+				if i.Addr != ssa.Value(a) {
+					res = false
+					break outer
+				}
+			case *ssa.UnOp:
+				if i.Op.String() != "*" {
+					res = false
+					break outer
+				}
+			case *ssa.DebugRef:
+			case *ssa.MakeClosure:
+				if i.Referrers() == nil {
+					res = false
+					break outer
+				}
+				for _, u := range *i.Referrers() {
+					switch c := u.(type) {
+					case *ssa.Call:
+						if c.Call.Value != ssa.Value(i) {
+							res = false
+							break outer
+						}
+					case *ssa.Defer:
+						if c.Call.Value != ssa.Value(i) {
+							res = false
+							break outer
+						}
+					case *ssa.DebugRef:
+					default:
+						res = false
+						break outer
+					}
+				}
+			default:
+				res = false
+				break outer
+			}
+		}
+	}
+	privateCellMemo[a] = res
+	return res
 }
